@@ -60,7 +60,7 @@ func vfGenPools(r *vfRand, withBig bool, names []string) []metallbv1beta1.IPAddr
 			case 0:
 				at.Namespaces = vfSubset(r, []string{"ns1", "ns2", "ns3"}, 1, 2)
 			case 1:
-				at.NamespaceSelectors = []metav1.LabelSelector{{MatchLabels: map[string]string{"team": vfPick(r, []string{"a", "b"})}}}
+				at.NamespaceSelectors = []metav1.LabelSelector{{MatchLabels: map[string]string{"team": vfPick(r, []string{"a", "a", "b", "b", "nobody"})}}}
 			case 2:
 				at.ServiceSelectors = []metav1.LabelSelector{{MatchLabels: map[string]string{"tier": vfPick(r, []string{"web", "db"})}}}
 			case 3:
